@@ -64,7 +64,7 @@ EMPTY = z3.StringVal("")
 SPEC_FUNCS = (
     "joined old count n_count first_start last_end chain_ok span_ok joined_values "
     "implies is_none appended length seq_of at unchanged strip lstrip rstrip isspace "
-    "startswith endswith contains substr ite same present is_ctor or_empty field refs_closed writes_only has_op declares_param defines chars_subset differs_only_at is_suffix touched_exactly_one_marked isdigit isalpha isidentifier only_chars pure is_str replace"
+    "startswith endswith contains substr ite same present is_ctor or_empty field refs_closed writes_only has_op declares_param defines chars_subset differs_only_at is_suffix touched_exactly_one_marked isdigit isalpha isidentifier only_chars pure is_str replace is_obj"
 ).split()
 
 
@@ -1068,7 +1068,9 @@ class Engine(object):
             v = self._eval_spec_node(e.args[0], s_old)
             if isinstance(v, VRef):
                 # re-home the old object into the current heap under a fresh reference
+                origin = getattr(v, "origin_rid", v.rid)
                 v = st.alloc(s_old.heap[v.rid])
+                v.origin_rid = origin  # which object this is the entry-state view of (for is_obj)
             return [(st, v)]
         if (
             isinstance(f, ast.Attribute) and f.attr == "join" and isinstance(f.value, ast.Constant) and f.value.value == "" and len(e.args) == 1 and not e.keywords
@@ -1915,6 +1917,10 @@ class Engine(object):
             if c is None:
                 raise OutOfSubset("same() on incomparable values")
             return VBool(c)
+        if name == "is_obj":
+            # identity of two mutable objects (the very same dict / list)
+            return VBool(z3.BoolVal(isinstance(args[0], VRef) and isinstance(args[1], VRef)
+                                    and getattr(args[0], "origin_rid", args[0].rid) == getattr(args[1], "origin_rid", args[1].rid)))
         if name == "present":
             r = st.heap[args[0].rid]
             k = args[1].z.as_string()
@@ -2023,7 +2029,7 @@ class Engine(object):
         if c.deterministic and not c.modifies and c.result in ("int", "str", "bool"):
             res = self.opaque_call("contract:" + qual, [bound[k] for k in sorted(bound)], st, c.result)
         else:
-            res = self.fresh_value(c.result, "ret:" + qual.split(":")[-1], st)
+            res = self.result_value(c.result, bound, "ret:" + qual.split(":")[-1], st, c)
         post = self.spec_env_state(st, dict(bound, result=res))
         post.heap = st.heap  # share (spec evaluation may alloc helper views)
         for en in c.ensures:
@@ -2033,6 +2039,31 @@ class Engine(object):
             return []
         return [(st, res)]
 
+    @staticmethod
+    def arg_path(bound, text, c=None):
+        """'name' or 'name[i]' (an element of a tuple argument) -> (value at the call site, declared kind)"""
+        import re as _re
+
+        m = _re.fullmatch(r"(\w+)((?:\[\d+\])*)", text)
+        if not m:
+            raise OutOfSubset("argument path %r not understood" % text)
+        v = bound.get(m.group(1))
+        pk = c.params.get(m.group(1)) if c is not None else None
+        for i in map(int, _re.findall(r"\[(\d+)\]", m.group(2))):
+            if not isinstance(v, VTuple) or i >= len(v.items):
+                raise OutOfSubset("argument path %r: not a tuple of that length at the call site" % text)
+            v = v.items[i]
+            pk = pk[i] if isinstance(pk, (list, tuple)) and i < len(pk) else None
+        return v, pk
+
+    def result_value(self, kind, bound, name, st, c):
+        """Result of a contract call: fresh values of the declared kinds; a leaf '@name[i]' is the very object that was passed in"""
+        if isinstance(kind, str) and kind.startswith("@"):
+            return self.arg_path(bound, kind[1:], c)[0]
+        if isinstance(kind, (tuple, list)):
+            return VTuple([self.result_value(k, bound, "%s[%d]" % (name, i), st, c) for i, k in enumerate(kind)])
+        return self.fresh_value(kind, name, st)
+
     def assumptions_used_contract(self, qual):
         c = self.contracts[qual]
         if c.trusted:
@@ -2041,10 +2072,9 @@ class Engine(object):
     def havoc_path(self, bound, path, st, c=None):
         """path: 'name' or 'name.key'"""
         parts = path.split(".")
-        v = bound.get(parts[0])
+        v, pk = self.arg_path(bound, parts[0], c)
         if not isinstance(v, VRef):
             raise OutOfSubset("modifies %s: not a mutable object at the call site" % path)
-        pk = c.params.get(parts[0]) if c is not None else None
         if len(parts) == 1:
             hint = pk[5:] if isinstance(pk, str) and pk.startswith("list:") else None
             o = st.heap[v.rid]
